@@ -236,14 +236,14 @@ def c15e(ctx):
     for qn, sink in USERS:
         fn = ctx.fn(qn)
         loops = [s for s in fn.walk() if isinstance(s, ast.For) and is_call(fn.canon.expr(s.iter), 'imap')]
-        comps = [c for c in fn.walk() if isinstance(c, ast.ListComp) and len(c.generators) == 1 and is_call(c.generators[0].iter, 'imap')]
+        comps = [c for c in fn.walk() if isinstance(c, ast.ListComp) and len(c.generators) == 1 and is_call(fn.canon.expr(c.generators[0].iter), 'imap')]
         ok = len(loops) == 1
         if not loops and len(comps) == 1 and sink.endswith('.append'):
             # the accumulator loop in its comprehension form: `layers = [layer for layer in imap(..) if ..]` keeps the order
             c = comps[0]
             asg = enclosing(c, ast.Assign)
             ok = asg is not None and unparse(asg.targets[0]) == sink.rsplit('.', 1)[0] and \
-                not contains(c.generators[0].iter, lambda x: is_call(x, 'sorted', 'set', 'reversed')) and \
+                not contains(fn.canon.expr(c.generators[0].iter), lambda x: is_call(x, 'sorted', 'set', 'reversed')) and \
                 not any(is_call(x, 'sort', 'sorted', 'reverse', 'reversed') and x.lineno > c.lineno for x in fn.walk())
         elif ok:
             lp = loops[0]
